@@ -13,6 +13,7 @@ context and under a prior context:
   A  Scalar, ScalarLike, PRNGKeyArray equal their documented definitions."""
 from __future__ import annotations
 
+import enum
 import itertools
 import typing
 from typing import Any, TypeVar, Union
@@ -41,13 +42,27 @@ RULE = (
 )
 ASSUMPTIONS = [
     "dtype intersection computed from vf/models/dtypes.py; the shape side of law N is evaluated with the real Shaped[A, 's2 s1'] (metamorphic)",
-    "precision-specific classes with Python scalars, and np.bool_/np.generic/np.number as array types, are checked for totality only",
+    "precision-specific classes with Python scalars, and np.bool_/np.generic/np.number as array types, are checked for totality only; law C (classes other than the four scalar types are ordinary array types) is metamorphic against D[Any, s]",
 ]
 
 CATS = list(dt.CATEGORIES)
 PROBE_DTYPES = ["bool", "int8", "uint8", "int32", "uint32", "float16", "float32", "float64", "complex64", "complex128"]
 PROBE_SHAPES = [(), (1,), (2,), (3,), (3, 4), (1, 4), (2, 3, 4), (3, 3)]
 _P = {}
+
+
+class Colour(enum.IntEnum):
+    RED = 1
+
+
+class MyFloat(float):
+    pass
+
+
+# classes that are NOT one of the four Python scalar types (several inherit from one): ordinary array types.
+# (np.bool_, np.generic and np.number are handled like scalar types by the code for the sake of ArrayLike: totality only, not here;
+# classes whose instances lack .shape/.dtype are outside the documented domain of array types)
+CLASS_TYPES = {"np.float64": np.float64, "np.complex128": np.complex128, "np.float32": np.float32, "np.int64": np.int64, "np.uint8": np.uint8}
 
 
 def probes(kind="np"):
@@ -65,6 +80,7 @@ def probes(kind="np"):
                 out.append(usercats.DuckArr(s, "float32"))
                 out.append(usercats.DuckArr(s, "int8"))
             out += [True, 3, 2.5, 1j, np.float32(1.0), np.int8(1), np.bool_(True), None, "s", (1, 2)]
+            out += [np.float64(1.0), np.complex128(1j), np.int64(3), Colour.RED, MyFloat(2.5)]
         else:
             for d in ("bool", "int32", "uint32", "float32", "float16"):
                 for s in ((), (2,), (3,), (2, 3)):
@@ -259,6 +275,28 @@ def law_union_typevar(ctx, cat, spec, form):
         raise Violation("UT-law", case, f"{form} with {cat}, {spec!r}: {first_diff(vl, vr)}")
 
 
+# ---------------------------------------------------------------------------------------- law C
+def law_class(ctx, cat, tname, spec):
+    """Only bool/int/float/complex themselves are 'Python scalar types'; any other class T is an ordinary array type:
+    D[T, s] builds, and accepts x exactly when isinstance(x, T) and D[Any, s] accepts x."""
+    D = getattr(jaxtyping, cat)
+    T = CLASS_TYPES[tname]
+    case = {"law": "C", "cat": cat, "type": tname, "spec": spec}
+    kind, ann = build(lambda: D[T, spec])
+    ctx.note(case, issubclass(T, (int, float, complex)), classes=["law-C", f"type-{tname}", f"built-{kind}"], sample={"law": "class", "annotation": f"{cat}[{tname}, {spec!r}]", "result": kind})
+    if kind != "ok":
+        raise Violation("C-build", case, f"{cat}[{tname}, {spec!r}] should be an ordinary annotation, building it gave {kind}: {ann}")
+    ref = D[Any, spec]
+    for v in probes():
+        with jaxtyped("context"):
+            got = accepts(ann, v)
+        with jaxtyped("context"):
+            want = accepts(ref, v) if isinstance(v, T) else "False"
+        if got != want:
+            raise Violation("C-law", case, f"isinstance({v!r} of type {type(v).__name__}, {cat}[{tname}, {spec!r}]) = {got}; "
+                                           f"isinstance(x, {tname}) = {isinstance(v, T)}, {cat}[Any, {spec!r}] gives {accepts(ref, v)}")
+
+
 # ---------------------------------------------------------------------------------------- law S
 SCALARS = {"bool": bool, "int": int, "float": float, "complex": complex}
 
@@ -384,6 +422,14 @@ def run(ctx):
             law_scalar(ctx, cat, sk, spec, rank0, in_union)
     except Violation as v:
         ctx.record(v)
+    # ---- law C: complete product (small)
+    try:
+        for i, (cat, tname, spec) in enumerate(itertools.product(CATS, CLASS_TYPES, ["", "...", "a", "*v", "_ 2"])):
+            if i % ctx.nshards != ctx.shard:
+                continue
+            law_class(ctx, cat, tname, spec)
+    except Violation as v:
+        ctx.record(v)
     if ctx.shard == 0:
         try:
             law_aliases(ctx)
@@ -402,6 +448,8 @@ def replay(case, clause, ctx):
         elif case.get("law") == "S":
             rank0 = dict(RANK0).get(case["spec"], False)
             law_scalar(ctx, case["cat"], case["scalar"], case["spec"], rank0, case["in_union"])
+        elif case.get("law") == "C":
+            law_class(ctx, case["cat"], case["type"], case["spec"])
         else:
             law_aliases(ctx)
     except Violation as v:
